@@ -67,7 +67,9 @@ func implCellLength(data []byte, pos int, typ byte, meta uint16) vh.Val {
 	})
 }
 
-// substFloat replaces the model's oracle markers F32:<bits> / F64:<bits> by Go's own formatting.
+// substFloat replaces the model's oracle markers by Go's own formatting: F32:<bits> / F64:<bits> (a FLOAT / DOUBLE
+// cell: the whole value is the marker, strconv 'f' formatting) and \E64:<bits>; (the doubles inside the text of a JSON
+// cell, strconv 'E' formatting; the backslash cannot occur in the rendering of a well-formed document).
 func substFloat(text []byte) []byte {
 	s := string(text)
 	if strings.HasPrefix(s, "F32:") {
@@ -78,7 +80,40 @@ func substFloat(text []byte) []byte {
 		b, _ := strconv.ParseUint(s[4:], 10, 64)
 		return strconv.AppendFloat(nil, math.Float64frombits(b), 'f', -1, 64)
 	}
+	if hasE64Marker(text) {
+		return substE64(text)
+	}
 	return text
+}
+
+// hasE64Marker: every occurrence of the prefix \E64: is a complete marker \E64:<decimal digits>; (so that substE64
+// cannot fail on a value that merely contains the prefix, e.g. a random blob).
+func hasE64Marker(b []byte) bool {
+	found := false
+	for {
+		i := strings.Index(string(b), e64Prefix)
+		if i < 0 {
+			return found
+		}
+		rest := b[i+len(e64Prefix):]
+		j := 0
+		for j < len(rest) && rest[j] >= '0' && rest[j] <= '9' {
+			j++
+		}
+		if j == 0 || j > 20 || j >= len(rest) || rest[j] != ';' {
+			return false
+		}
+		if _, err := strconv.ParseUint(string(rest[:j]), 10, 64); err != nil {
+			return false
+		}
+		found = true
+		b = rest[j+1:]
+	}
+}
+
+// hasOracleMarker: the value carries a marker substFloat replaces.
+func hasOracleMarker(b []byte) bool {
+	return (len(b) > 4 && (string(b[:4]) == "F32:" || string(b[:4]) == "F64:")) || hasE64Marker(b)
 }
 
 func substOutcome(v vh.Val) vh.Val {
